@@ -79,7 +79,7 @@ guarded!(sw_entry, mock_swap_sol_2z::verif_process_instruction);
 guarded!(rogue_entry, rogue);
 
 pub fn install_hooks() {
-    std::panic::set_hook(Box::new(|_| {}));
+    if std::env::var("DZ_DEBUG").is_ok() { std::panic::set_hook(Box::new(|i| { eprintln!("#panic {}", i); })); } else { std::panic::set_hook(Box::new(|_| {})); }
     solana_msg::native_hooks::set(|_m| {});
     solana_instruction::syscalls::native_hooks::set(solana_instruction::syscalls::native_hooks::Hooks {
         stack_height: || solana_sysvar::program_stubs::sol_get_stack_height() as usize,
@@ -186,6 +186,7 @@ impl Sim {
                 Ok(()) => return true,
                 Err(solana_program_test::BanksClientError::TransactionError(e)) => {
                     use solana_sdk::transaction::TransactionError as TE;
+                    if std::env::var("DZ_DEBUG").is_ok() { eprintln!("#err sim={} line={} {:?}", self.n >> 32, self.lines.len(), e); }
                     match e { TE::BlockhashNotFound | TE::AlreadyProcessed => continue, _ => return false }
                 }
                 Err(solana_program_test::BanksClientError::SimulationError { .. }) => return false,
